@@ -947,6 +947,7 @@ func TestVerifC14(t *testing.T) {
 	}
 
 	// one statement TEXT holding several statements (the driver executes them all)
+	var splitOps, splitImpl []string
 	multi := vfScale(300, 60000)
 	for i := 0; i < multi+3; i++ {
 		g := &c14Gen{r: r, forms: map[string]bool{}}
@@ -963,10 +964,44 @@ func TestVerifC14(t *testing.T) {
 		case 2:
 			text = "INSERT INTO t(a) VALUES(1); INSERT INTO t(a) VALUES(2);"
 		}
+		// a CREATE TRIGGER statement (its body holds semicolons, and CASE … END) before / after / between
+		if i%7 == 3 || (i >= 3 && i < 9) {
+			trg := r.Pick([]string{
+				"CREATE TRIGGER tr AFTER INSERT ON t BEGIN UPDATE t SET a = CASE WHEN a > 1 THEN 2 ELSE 3 END; DELETE FROM t WHERE b = 1; END",
+				"CREATE TEMP TRIGGER tr2 BEFORE DELETE ON t BEGIN SELECT CASE WHEN old.a THEN CASE WHEN 1 THEN 2 END ELSE 0 END; END",
+				"CREATE TRIGGER IF NOT EXISTS tr3 AFTER UPDATE ON t BEGIN INSERT INTO t(a) VALUES(1); INSERT INTO t(a) VALUES(2); UPDATE t SET b = 2; END"})
+			switch i % 3 {
+			case 0:
+				text = trg + "; " + text
+			case 1:
+				text = text + "; " + trg
+			default:
+				parts = append([]string{parts[0], trg}, parts[1:]...)
+				text = strings.Join(parts, "; ")
+			}
+			g.forms["trigger-in-text"] = true
+		}
+		if i%11 == 6 {
+			text = r.Pick([]string{";;", "; ", ";\n;"}) + text // leading empty statements
+		}
 		if i%9 == 4 {
 			text += r.Pick([]string{";", ";;", " ; ; ", ";\n-- done\n"}) // empty / comment-only statements
 		} else if i%9 == 5 {
 			text = strings.Replace(text, ";", "; ;", 1)
+		}
+		splitOps = append(splitOps, "split "+c14Letters(text))
+		{
+			var segs []string
+			for _, sg := range splitStatements(text) {
+				if l := c14Letters(sg); l != "-" { // a comment-only piece holds no token
+					segs = append(segs, l)
+				}
+			}
+			o := "-"
+			if len(segs) > 0 {
+				o = strings.Join(segs, "|")
+			}
+			splitImpl = append(splitImpl, o)
 		}
 		origTexts, orig, ok := c14ParseAll(text)
 		if !ok || len(orig) < 2 {
@@ -1023,6 +1058,7 @@ func TestVerifC14(t *testing.T) {
 		}
 	}
 
+	rep.vfCompareSegments("rewrite", c14Chunks(splitOps, 300), c14Chunks(splitImpl, 300))
 	rep.vfCompareSegments("rewrite", c14Chunks(ops, 400), c14Chunks(impl, 400))
 	rep.vfCompareSegments("rewrite", c14Chunks(filterOps, 400), c14Chunks(filterImpl, 400))
 
@@ -1096,8 +1132,43 @@ func TestVerifC14(t *testing.T) {
 	}
 }
 
-// c14ParseAll splits a text at its top-level semicolons (scanner tokens, so not inside strings,
-// identifiers or comments), drops empty and comment-only statements and parses the others.
+// c14Letters renders the scanner's tokens of a text in the model's alphabet.
+func c14Letters(text string) string {
+	var b strings.Builder
+	sc := rsql.NewScanner(strings.NewReader(text))
+	for {
+		_, tok, lit := sc.Scan()
+		if tok == rsql.EOF {
+			break
+		}
+		switch {
+		case tok == rsql.COMMENT:
+		case tok == rsql.SEMI:
+			b.WriteByte('s')
+		case tok == rsql.CREATE:
+			b.WriteByte('c')
+		case tok == rsql.TEMP || strings.EqualFold(lit, "temporary"):
+			b.WriteByte('m')
+		case tok == rsql.TRIGGER:
+			b.WriteByte('t')
+		case tok == rsql.BEGIN:
+			b.WriteByte('b')
+		case tok == rsql.CASE:
+			b.WriteByte('k')
+		case tok == rsql.END:
+			b.WriteByte('e')
+		default:
+			b.WriteByte('o')
+		}
+	}
+	if b.Len() == 0 {
+		return "-"
+	}
+	return b.String()
+}
+
+// c14ParseAll cuts a text at its semicolon tokens (scanner tokens, so not inside strings, identifiers
+// or comments), drops empty and comment-only pieces and groups the pieces into statements.
 func c14ParseAll(text string) ([]string, []rsql.Statement, bool) {
 	runes := []rune(text)
 	var segs []string
@@ -1114,22 +1185,34 @@ func c14ParseAll(text string) ([]string, []rsql.Statement, bool) {
 		}
 	}
 	segs = append(segs, string(runes[start:]))
+	// A statement is the shortest run of semicolon-separated pieces that the PARSER accepts (so the
+	// body of a CREATE TRIGGER, which holds semicolons, is found without knowing its syntax here).
 	var texts []string
 	var stmts []rsql.Statement
-	for _, sg := range segs {
-		sg = strings.TrimSpace(sg)
-		if sg == "" {
+	for i := 0; i < len(segs); {
+		if strings.TrimSpace(segs[i]) == "" {
+			i++
 			continue
 		}
-		p, err := rsql.NewParser(strings.NewReader(sg)).ParseStatement()
-		if err == io.EOF {
-			continue
+		acc := segs[i]
+		k := i
+		for {
+			p, err := rsql.NewParser(strings.NewReader(acc)).ParseStatement()
+			if err == io.EOF { // nothing but comments
+				break
+			}
+			if err == nil {
+				texts = append(texts, strings.TrimSpace(acc))
+				stmts = append(stmts, p)
+				break
+			}
+			if k+1 >= len(segs) {
+				return nil, nil, false
+			}
+			k++
+			acc += ";" + segs[k]
 		}
-		if err != nil {
-			return nil, nil, false
-		}
-		texts = append(texts, sg)
-		stmts = append(stmts, p)
+		i = k + 1
 	}
 	return texts, stmts, true
 }
